@@ -2077,7 +2077,8 @@ def gen_read_groups():
     """constants of src/read_groups.py used by the C09 model: the NA label, the default tag, the option keywords of
     create_read_grouper and the column defaults of the per-chromosome table"""
     tree = parse("src/read_groups.py")
-    out = ["-- GENERATED by harness/translate.py from /repo/src/read_groups.py -- do not edit", "namespace IsoVerif.Gen", ""]
+    out = ["-- GENERATED by harness/translate.py from /repo/src/read_groups.py -- do not edit", "import IsoVerif.Gen.Enums",
+           "namespace IsoVerif.Gen", ""]
     info = {}
     ac = class_consts(tree, "AbstractReadGrouper")
     if not isinstance(ac.get("default_group_id"), str):
@@ -2107,6 +2108,49 @@ def gen_read_groups():
         raise TranslationError("create_read_grouper: unexpected option keyword comparisons %s" % kws)
     info["modes"] = kws
     out.append("def rg_modes : List String := [%s]" % ", ".join(json.dumps(k) for k in kws))
+    # --counts_format reaches a grouped count table only through the `grouped_format` argument of its counter: every
+    # `self.<x>_grouped_counter = create_*_counter(..., read_groups=...)` of ReadAssignmentAggregator.__init__, in source
+    # order, with the answer to "is `grouped_format=self.grouped_format` passed?" (audit-2 B, GAP C09-5)
+    dtree = parse("src/dataset_processor.py")
+    agg = find_def(dtree, "__init__", "ReadAssignmentAggregator")
+    fmt_set = [n for n in ast.walk(agg) if isinstance(n, ast.Assign) and len(n.targets) == 1
+               and isinstance(n.targets[0], ast.Attribute) and n.targets[0].attr == "grouped_format"]
+    if len(fmt_set) != 1 or "counts_format" not in ast.dump(fmt_set[0].value):
+        raise TranslationError("ReadAssignmentAggregator.__init__: self.grouped_format is not set once from args.counts_format")
+    counters = []
+    for n in ast.walk(agg):
+        if isinstance(n, ast.Assign) and len(n.targets) == 1 and isinstance(n.targets[0], ast.Attribute) \
+                and isinstance(n.value, ast.Call) and any(k.arg == "read_groups" for k in n.value.keywords):
+            if not (isinstance(n.value.func, ast.Name) and n.value.func.id in ("create_gene_counter", "create_transcript_counter")):
+                raise TranslationError("ReadAssignmentAggregator.__init__: unexpected constructor of a grouped counter: %s"
+                                       % ast.dump(n.value.func))
+            passes = any(k.arg == "grouped_format" and isinstance(k.value, ast.Attribute) and k.value.attr == "grouped_format"
+                         and isinstance(k.value.value, ast.Name) and k.value.value.id == "self" for k in n.value.keywords)
+            counters.append((n.lineno, n.targets[0].attr, passes))
+    counters = [(a, b) for _, a, b in sorted(counters)]
+    if not counters:
+        raise TranslationError("ReadAssignmentAggregator.__init__: no counter takes read_groups")
+    info["grouped_counters"] = counters
+    # the format a counter uses when the argument is NOT passed: the default of the two factory functions
+    ltree = parse("src/long_read_counter.py")
+    dfl = set()
+    for fn in ("create_gene_counter", "create_transcript_counter"):
+        fd = find_def(ltree, fn)
+        names = [a.arg for a in fd.args.args]
+        if "grouped_format" not in names:
+            raise TranslationError("%s has no grouped_format parameter" % fn)
+        dv = fd.args.defaults[names.index("grouped_format") - (len(names) - len(fd.args.defaults))]
+        if not (isinstance(dv, ast.Attribute) and isinstance(dv.value, ast.Name) and dv.value.id == "GroupedOutputFormat"):
+            raise TranslationError("%s: default of grouped_format is not a GroupedOutputFormat member" % fn)
+        dfl.add(dv.attr)
+    if len(dfl) != 1:
+        raise TranslationError("create_gene_counter / create_transcript_counter: different grouped_format defaults %s" % sorted(dfl))
+    info["grouped_format_default"] = sorted(dfl)[0]
+    out.append("def rg_grouped_format_default : GroupedOutputFormat := .%s" % sorted(dfl)[0])
+    out.append("/-- grouped count tables of ReadAssignmentAggregator.__init__ (src/dataset_processor.py): (counter, is")
+    out.append("    `grouped_format=self.grouped_format` passed to its constructor?) -/")
+    out.append("def rg_grouped_counters : List (String × Bool) := [%s]"
+               % ", ".join("(%s, %s)" % (json.dumps(a), "true" if b else "false") for a, b in counters))
     out.append("\nend IsoVerif.Gen\n")
     return "\n".join(out), info
 
